@@ -13,6 +13,11 @@ impl<'a> Out<'a> {
         self.n += 1;
         writeln!(self.w, "{}.{}.{} {}", self.prop, fam, self.n, body).unwrap();
     }
+    /// same, with a theorem-backed expectation `exp` that both sides must meet
+    pub fn op_exp(&mut self, fam: &str, exp: &str, body: &str) {
+        self.n += 1;
+        writeln!(self.w, "{}.{}.{}!{} {}", self.prop, fam, self.n, exp, body).unwrap();
+    }
 }
 
 const PT_SIZES: [(usize, usize, usize); 12] = [
@@ -89,6 +94,9 @@ pub fn generate(prop: &str, tier: &str, seed: u64, w: &mut dyn Write) {
     match prop {
         "C15" => gen_c15(&mut o, tier, seed),
         "C16" => gen_c16(&mut o, tier, seed),
+        "C01" => crate::gen_sigma::gen_c01(&mut o, tier, seed),
+        "C02" => crate::gen_sigma::gen_c02(&mut o, tier, seed),
+        "C03" => crate::gen_sigma::gen_c03(&mut o, tier, seed),
         _ => {}
     }
 }
